@@ -5,7 +5,7 @@ from lib.checkdef import default_replay_cmd, run_property
 def run(tier, seed):
     return run_property(
         "C13", tier, seed, level="other",
-        deductive=[("c08_locks", r"C13\.|C08\.release|C08\.lock"), ("c04_graph", r"reroute")],
+        deductive=[("c08_locks", r"C13\.|C08\.release|C08\.lock"), ("c04_graph", r"reroute"), ("c_op", r"^C13\.op|^C08\.op\.failed")],
         bounded=[("state_bounded.py", ["--check", "C13"])],
         trusted=["pyvc heap/dict model of the lock tables", "NumPy refuses flags.writeable=True on a view whose base is read-only (hence a view's flag is restored lazily, when its base is released)"],
         assumptions=[
